@@ -858,8 +858,49 @@ static void fixed(void) {
   }
 }
 
+/* the same mutator inside a worker thread: its own collector, its own stack bottom, its own thread-local storage */
+static vh_rng* wt_rng; static int wt_nops, wt_bias;
+static var worker_case(var args) {
+  (void)args;
+  struct GC* main_gc = gc;
+  mo_thread_index = 1;
+  gc = current(GC);
+  run_random_case(wt_rng, wt_nops, wt_bias);
+  gc = main_gc;
+  return NULL;
+}
+
 static void case_random(vh_rng* r, long index) {
   int nops = 40 + (int)vh_below(r, vh.thorough ? 500 : 160);
+  if (index % 5 == 4) {
+    wt_rng = r; wt_nops = nops; wt_bias = (int)(index % 3);
+    /* the shadow set of registered objects belongs to ONE collector: park the main thread's survivors,
+       give the worker an empty set (its collector is new), restore afterwards */
+    static struct rs_entry* parked; static size_t nparked, capparked;
+    nparked = 0;
+    if (check_c17) {
+      for (size_t k = 0; k < rs_nused; k++) {
+        struct rs_entry* e = &RS[rs_used[k]];
+        if (e->ptr != NULL && e->state == 1 && mem(gc, e->ptr)) {
+          if (nparked == capparked) { capparked = capparked ? capparked * 2 : 256; parked = realloc(parked, capparked * sizeof *parked); }
+          parked[nparked++] = *e;
+        }
+      }
+      for (size_t k = 0; k < rs_nused; k++) { memset(&RS[rs_used[k]], 0, sizeof(struct rs_entry)); }
+      rs_nused = 0; rs_live = 0;
+    }
+    var fn = $(Function, worker_case);
+    var t = new_raw(Thread, fn);
+    call(t); join(t);
+    del_raw(t);
+    if (check_c17) {
+      for (size_t k = 0; k < rs_nused; k++) { memset(&RS[rs_used[k]], 0, sizeof(struct rs_entry)); }
+      rs_nused = 0; rs_live = 0;
+      for (size_t k = 0; k < nparked; k++) { rs_add(parked[k].ptr, parked[k].root, parked[k].probe_id); }
+    }
+    vh_count("cases_run_in_a_worker_thread");
+    return;
+  }
   run_random_case(r, nops, (int)(index % 3));
 }
 
